@@ -263,7 +263,23 @@ def antiamp_script(r, idx, fate_vec=None):
             steps.append({"do": "run", "us": r.choice([0, 1000, 4999, 5000, 19999, 20000, 20001, 100000])})
             steps.append({"do": "raw_short", "to": r.choice([0, 0, 1]), "len": r.choice([17, 20, 21, 22, 37, 38, 39, 40, 41, 43, 100, 1200, 1500]), "salt": r.randrange(1 << 20)})
     elif fam == "shortinit":
-        cfg["fates_c2s"] = ["shrink:%d" % r.choice([200, 600, 1100, 1199, 1199, 1200])] + cfg["fates_c2s"][1:]
+        if r.random() < 0.5:
+            cfg["fates_c2s"] = ["shrink:%d" % r.choice([200, 600, 1100, 1199, 1199, 1200])] + cfg["fates_c2s"][1:]
+        else:
+            # hand-made version-1 Initials of every shape in undersized datagrams (instead of the
+            # genuine first flight): ID lengths from 0 to 20, with and without token
+            steps = []
+            for _ in range(r.choice([1, 3, 6])):
+                dl, sl = r.choice([0, 1, 7, 8, 16, 20]), r.choice([0, 4, 8, 20])
+                tok = bytes(r.randrange(256) for _ in range(r.choice([0, 0, 5, 40])))
+                total = r.choice([29, 40, 100, 600, 1199])
+                hdr = bytes([0xc0 | r.choice([0, 1, 2, 3]) | r.choice([0, 0x0c])]) + b"\x00\x00\x00\x01" + bytes([dl]) \
+                    + bytes(r.randrange(256) for _ in range(dl)) + bytes([sl]) + bytes(r.randrange(256) for _ in range(sl)) \
+                    + _var(len(tok)) + tok
+                rest = max(0, total - len(hdr) - 2)
+                data = hdr + _var(rest if rest >= 64 else rest + 64)[:2].rjust(2, b"\x40") + bytes(rest)
+                steps.append({"do": "raw", "to": 0, "hex": data[:max(total, len(hdr) + 2)].hex()})
+                steps.append({"do": "run", "us": r.choice([0, 1000, 50000])})
         steps.append({"do": "run", "us": 3000000})
     steps.append({"do": "run", "us": 1000000})
     return {"cfg": cfg, "steps": steps, "tag": {"family": "antiamp-" + fam, "idx": idx}}
@@ -272,7 +288,7 @@ def antiamp_script(r, idx, fate_vec=None):
 # ------------------------------------------------------------------------------------------------
 # C04
 
-CORRUPT_MENU = ["corrupt:0:1", "corrupt:0:64", "corrupt:1:255", "corrupt:5:8", "corrupt:9:1", "corrupt:20:4",
+CORRUPT_MENU = ["corrupt:0:1", "corrupt:0:64", "corrupt:0:8", "corrupt:0:16", "corrupt:0:4", "corrupt:0:12", "corrupt:0:24", "corrupt:1:255", "corrupt:5:8", "corrupt:9:1", "corrupt:20:4",
                 "corrupt:-1:1", "corrupt:-17:128", "corrupt:-30:2", "corrupt:600:16",
                 "trunc:1", "trunc:5", "trunc:20", "trunc:21", "trunc:100", "trunc:600", "trunc:1199",
                 "ext:1", "ext:16", "ext:100"]
@@ -380,10 +396,20 @@ def flow_script(r, idx, fate_vec=None):
         if r.random() < 0.3:
             cfg["loss_pct"] = 10
             cfg["dup_pct"] = 10
+    # what a side advertises may be lower than what it enforces, and need not be the same for the
+    # three kinds of stream (a non-quinn peer): the sender must obey exactly what was advertised
+    for side in ("server", "client"):
+        if r.random() < 0.35:
+            real = cfg[side].get("stream_recv_window", 1250000)
+            vals = r.sample([64, 300, 1000, 5000, 16000], 3)
+            edits = [[pid, min(v, real)] for pid, v in zip((5, 6, 7), vals)]
+            if r.random() < 0.5:
+                edits.append([4, min(r.choice([100, 1000, 10000]), cfg[side].get("recv_window", 10 ** 9))])
+            cfg[side + "_tp"] = edits
     steps = [{"do": "connect", "n": 1}]
 
     tiny = any(cfg[x].get(k, 10 ** 9) < 1000 for x in ("server", "client")
-               for k in ("recv_window", "stream_recv_window", "send_window"))
+               for k in ("recv_window", "stream_recv_window", "send_window")) or "server_tp" in cfg or "client_tp" in cfg
 
     def wl(n):
         streams = []
